@@ -1502,6 +1502,36 @@ def ep_psi(ctx, E, case):
     return k > 1, []
 
 
+def ep_gen_table(ctx, E, case):
+    """the fixed-base table of the generator, DERIVED when the curve is installed (ep_curve_set -> ep_mul_pre), is
+    consistent with the generator: ep_mul_gen(k) = [k]G for a full-length k. The relation runs right after
+    ep_param_set in a process that has installed other parameter sets before, so a table laid out with the previous
+    set's shape (endomorphism / plain) shows up here."""
+    v = ep_view(E)
+    _coords(ctx, E)
+    k = case["k"] % v.r
+    if k.bit_length() < v.r.bit_length() - 8:
+        k = (v.r - 1 - k) % v.r
+    want = v.E.mul(k, v.G)
+
+    def build(p):
+        so = p.new("EP", enc_ep(E, v.G))
+        p.call("ep_mul_gen", so, p.bn(k))
+        p.dump(so)
+        return so
+    res, so = ep_run(ctx, E, build)
+    c = res.calls[0]
+    if c.unsupported:
+        raise Unsupported()
+    if c.ub or c.errored:
+        raise V("ep_mul_gen misbehaved (UB / error) right after selecting %s" % E.name, ub=c.ub)
+    Q = dec_ep(E, res.dumps[so], "ep_mul_gen result")
+    if Q != want:
+        raise V("ep: the precomputed generator table of %s is inconsistent with G: ep_mul_gen(k) != [k]G" % E.name, k=k,
+                got=Q and list(Q), want=want and list(want))
+    return True, []
+
+
 # ------------------------------------------------------------------------------- hash-to-curve constants (RFC 9380)
 
 def cubic_has_root(K, a, b, z):
@@ -1701,6 +1731,7 @@ EP_RELS = [
     ("h2c-constants", ep_h2c, None, None),
     ("curve-order", ep_cofactor, mat_point, None), ("cofactor-map", ep_mul_cof, mat_point_alias, None),
     ("psi-eigenvalue", ep_psi, mat_scalar, _endo_only), ("glv-split", ep_glv_split, mat_scalar, _endo_only),
+    ("generator-table", ep_gen_table, mat_scalar, None),
     ("isogeny-map", ep_iso_map, mat_two_points, lambda E: bool(E.is_ctmap)),
 ]
 
